@@ -12,6 +12,8 @@ CONSTANTS
   OkSet = {TRUE, FALSE}
   ForeignRefCheck = TRUE
   HeaderSetCheck = TRUE
+  Mutations = FALSE
+  CopyRule = "firstfree"
   ItemRefs = {0, 7}
 VIEW View
 INVARIANT IdentityUnique
@@ -23,6 +25,7 @@ INVARIANT Completeness
 INVARIANT ViewUnique
 INVARIANT FlagDiscipline
 INVARIANT CopyNumbersDense
+INVARIANT CopyNumbersDistinct
 INVARIANT ProgressTotalCovers
 PROPERTY RejectedIsNoOp
 CHECK_DEADLOCK FALSE
